@@ -14,6 +14,8 @@ Flow records:   `auth st=… cimd=… pre=… dcr=… u=<url> hm=… ch=… hdr=
                 attempts in flight, finished in any order; `auth`/`again` = `begin` + `end` at once.  In `f=R|<state>|<iss>`
                 the state is `g` (generated for this attempt), `s<k>` (generated for attempt `k`: one in flight or
                 finished) or `f`/`e` (forged / empty).
+                `nts=1` on `auth`: `NewTokenSource` is configured (its source wraps the default one); `nt=E` on a round: it
+                returns an error in that round.
                 Observation `out=<outcome> inst=<0|1> cur=<i|k> log=<events>` (`Authorize` returning nil is `ok` both
                 for a completed flow and for the 403-without-insufficient_scope skip; `inst` = TokenSource()
                 changed in this round; `cur` = the round that installed the source now served, `i` = the
@@ -161,12 +163,16 @@ def kvs (toks : List String) : List (String × String) :=
     | _ => none
 
 /-- `over` = the configuration of the handler of the case (`again` records carry none of their own). -/
-def parseCase (over : Option HConfig) (own : Nat) (toks : List String) : Option Case := do
+def parseCase (over : Option (HConfig × Bool)) (own : Nat) (toks : List String) : Option Case := do
   let m := kvs toks
   let get := fun k => m.lookup k
   let st ← get "st"
+  -- `nts=1` (configuration): NewTokenSource is set; `nt=E` (round): it returns an error in this round
+  let nts : Bool := match over with
+    | some c => c.2
+    | none => get "nts" == some "1"
   let hc : HConfig ← match over with
-    | some c => some c
+    | some c => some c.1
     | none => do
       let cimd ← get "cimd"
       let pre ← get "pre"
@@ -185,7 +191,8 @@ def parseCase (over : Option HConfig) (own : Nat) (toks : List String) : Option 
   let hdr : Option (List String) := (get "hdr").map fun h => if h == "." then [] else h.splitOn ","
   some { m := { cfg := hc.at u,
                 inp := { status403 := st == "403", headerMalformed := hm == "1", challenges := chs.map (·.1) },
-                tabs := { prm := prmTab, asm := asmTab, tok := tokTab, reg := regTab, fetch := f.answer own } },
+                tabs := { prm := prmTab, asm := asmTab, tok := tokTab, reg := regTab, fetch := f.answer own,
+                          ntsFails := nts && get "nt" == some "E" } },
          fv := f, hdr := hdr, chHex := chs.map (·.2) }
 
 /-! ### Observations -/
@@ -294,6 +301,7 @@ of every attempt in flight, and what the monitor remembers of the implementation
 (issuers at which it registered dynamically). -/
 structure HState where
   c : CHandler
+  nts : Bool := false                   -- NewTokenSource is configured
   cases : List (Nat × Case) := []
   dcrIssuers : List Url := []
 
@@ -325,7 +333,7 @@ def finishStep (st : HState) (k : Nat) (impl : String) : Option HState × Verdic
     let (viol, regd) := match parseObs impl with
       | none => (some "C15: unparsable observation", [])
       | some o => let (cl, regd) := monitor c.m st.dcrIssuers o; (cl.map Clause.text, regd)
-    (some { c := c', cases := st.cases.filter (fun p => p.1 != k), dcrIssuers := st.dcrIssuers ++ regd },
+    (some { st with c := c', cases := st.cases.filter (fun p => p.1 != k), dcrIssuers := st.dcrIssuers ++ regd },
      { model := modelText, violated := viol })
   | _, _ => (some st, { model := "no-such-attempt" })
 
@@ -346,19 +354,20 @@ def engine : Engine (Option HState) where
     | "auth" :: rest =>
       match parseCase none 0 rest with
       | none => (none, { model := "bad-op" })
-      | some c => roundStep { c := { cfg := { cimd := c.m.cfg.cimd, pre := c.m.cfg.pre, dcr := c.m.cfg.dcr } } } c impl
+      | some c => roundStep { c := { cfg := { cimd := c.m.cfg.cimd, pre := c.m.cfg.pre, dcr := c.m.cfg.dcr } },
+                              nts := (kvs rest).lookup "nts" == some "1" } c impl
     | "again" :: rest =>
       match st with
       | none => (none, { model := "no-handler" })
       | some hs =>
-        match parseCase (some hs.c.cfg) hs.c.started rest with
+        match parseCase (some (hs.c.cfg, hs.nts)) hs.c.started rest with
         | none => (st, { model := "bad-op" })
         | some c => roundStep hs c impl
     | "begin" :: rest =>
       match st with
       | none => (none, { model := "no-handler" })
       | some hs =>
-        match parseCase (some hs.c.cfg) hs.c.started rest with
+        match parseCase (some (hs.c.cfg, hs.nts)) hs.c.started rest with
         | none => (st, { model := "bad-op" })
         | some c => let (st', m) := startStep hs c; (st', { model := m })
     | ["end", k] =>
